@@ -23,7 +23,9 @@ RULE = ("generated argument sets for generate_data (n_features 1..12, n_samples 
         "precondition: counted, only dtype/shape/determinism checked); naive generator sizes >= 31 features and the "
         "data_generator task; HISTORIES: one generator instance, 2-4 generate_data calls with the same seed and k and column "
         "domains of equal size but different contents (default range / value lists with another spacing / random draws / "
-        "[values, frequencies]), every call replayed by the model on its own trace and compared with a fresh instance; non-trivial = n_samples >= 2 and some column domain with >= 2 values; distinct = distinct "
+        "[values, frequencies]), every call replayed by the model on its own trace and compared with a fresh instance; TASK "
+        "FOLDER HISTORIES: the same output folder reused for 2-4 data_generator runs with different (rows, features), once "
+        "with identical arguments, every run's data.csv judged for its own arguments; non-trivial = n_samples >= 2 and some column domain with >= 2 values; distinct = distinct "
         "argument sets")
 THEOREMS = ["C19_shape", "C19_domain", "C19_positions", "C19_positions_at", "C19_positions_default",
             "C19_positions_duplicates_rejected", "C19_positions_unsorted_prefix_refuted", "C19_ensure_rep",
@@ -217,6 +219,19 @@ def gen_task(rng):
             "seed": rng.randint(0, 2 ** 32 - 1), "preexisting": rng.random() < 0.5}
 
 
+def gen_taskhist(rng):
+    """the same output folder reused for 2-3 data_generator runs with different (rows, features), once with identical
+    arguments: the unchanged task removes an existing folder and writes anew, so every run's data.csv must be the data
+    set of ITS arguments"""
+    runs = [{"kind": "task", "num_features": rng.randint(31, 36), "size": rng.randint(1, 12),
+             "seed": rng.randint(0, 2 ** 32 - 1)} for _ in range(rng.randint(2, 3))]
+    if runs[1]["num_features"] == runs[0]["num_features"] and runs[1]["size"] == runs[0]["size"]:
+        runs[1]["size"] += 1
+    if rng.random() < 0.4:
+        runs.append(dict(runs[-1]))                       # identical arguments (incl. seed) once more
+    return {"kind": "taskhist", "runs": runs}
+
+
 def load_corpus(pid):
     d = os.path.join(vlib.VERIF, "corpus", pid)
     out = []
@@ -369,18 +384,29 @@ def check(run, replay):
         if run.tier == "quick":
             cases += [gen_case(rng) for _ in range(260)] + [gen_history(rng) for _ in range(40)]
             cases += [gen_naive(rng) for _ in range(6)] + [gen_task(rng) for _ in range(2)]
+            cases += [gen_taskhist(rng) for _ in range(4)]
         else:
             cases += [gen_case(rng) for _ in range(2500)] + [gen_case(rng, big=True) for _ in range(120)]
             cases += [gen_history(rng) for _ in range(400)]
             cases += [gen_naive(rng) for _ in range(30)] + [gen_naive(rng, big=True) for _ in range(6)]
-            cases += [gen_task(rng) for _ in range(6)]
+            cases += [gen_task(rng) for _ in range(6)] + [gen_taskhist(rng) for _ in range(20)]
     out = vlib.run_impl("impl_c19.py", {"cases": cases})
     if out.get("import_error"):
         raise vlib.Broken("impl-import", out["import_error"])
     # histories expand to one unit per call; a failing unit is reported with the history up to that call
     submitted, cases, res, report = cases, [], [], []
     n_hist = 0
+    n_taskhist = 0
     for c, r in zip(submitted, out["results"]):
+        if c.get("kind") == "taskhist":
+            n_taskhist += 1
+            if not r["ok"]:
+                j = min(r.get("run_index", len(c["runs"]) - 1), len(c["runs"]) - 1)
+                cases.append(c["runs"][j]); res.append(r); report.append({"kind": "taskhist", "runs": c["runs"][:j + 1]})
+                continue
+            for j, (cj, rj) in enumerate(zip(c["runs"], r["runs"])):
+                cases.append(cj); res.append(rj); report.append({"kind": "taskhist", "runs": c["runs"][:j + 1]})
+            continue
         if c.get("kind") != "hist":
             cases.append(c); res.append(r); report.append(c)
             continue
@@ -513,7 +539,7 @@ def check(run, replay):
                 except ValueError:
                     got = None
                 if status != 0:
-                    bad = ("data.csv header/files" if r["header"] != want_header or r["files"] != ["data.csv"] or got is None
+                    bad = ("data.csv has the requested columns f0..f{n-1},label and is the only file of the folder" if r["header"] != want_header or r["files"] != ["data.csv"] or got is None
                            else naive_observable(c, [g[:-1] for g in got], [g[-1] for g in got]))
                     if bad:
                         direct[i].append(("data_generator task, decidable without the recorded draw: " + bad,
@@ -573,6 +599,8 @@ def check(run, replay):
     run.cov["replay_mismatches"] = len(broken)
     run.cov["validator_evaluated_on"] = sum(1 for i in idx if cases[i].get("kind", "gen") == "gen")
     hist["histories"] = n_hist
+    hist["task_folder_histories"] = n_taskhist
+    hist["task_folder_history_runs"] = sum(1 for rp in report if rp.get("kind") == "taskhist")
     hist["history_calls"] = sum(1 for rp in report if rp.get("kind") == "hist")
     run.cov["input_distribution"] = hist
     run.cov["exhaustive"] = False
